@@ -12,7 +12,7 @@ use rand::Rng;
 use serde::de;
 #[cfg(feature = "config_parsing")]
 use std::fmt;
-use std::sync::RwLock;
+use std::{convert::TryFrom, sync::RwLock};
 
 use crate::append::rolling_file::{policy::compound::trigger::Trigger, LogFile};
 #[cfg(feature = "config_parsing")]
@@ -183,15 +183,25 @@ fn local_time(
     hour: u32,
     min: u32,
     sec: u32,
-) -> DateTime<Local> {
+) -> Option<DateTime<Local>> {
     match Local.with_ymd_and_hms(year, month, day, hour, min, sec) {
-        LocalResult::Single(time) => time,
+        LocalResult::Single(time) => Some(time),
         _ => current
             .offset()
             .with_ymd_and_hms(year, month, day, hour, min, sec)
-            .unwrap()
-            .with_timezone(&Local),
+            .single()
+            .map(|time| time.with_timezone(&Local)),
     }
+}
+
+/// Returns `count` times `unit_secs` seconds, or `None` if that is longer than a `Duration`
+/// can hold.
+fn span(count: i64, unit_secs: i64) -> Option<Duration> {
+    let secs = count.checked_mul(unit_secs)?;
+    if secs.checked_abs()? > i64::MAX / 1_000 {
+        return None;
+    }
+    Some(Duration::seconds(secs))
 }
 
 /// Returns the start of the current second, minute, hour or day as a wall-clock time under
@@ -236,7 +246,11 @@ impl TimeTrigger {
         let next_time = TimeTrigger::get_next_time(current, config.interval, config.modulate);
         let next_roll_time = if config.max_random_delay > 0 {
             let random_delay = rand::thread_rng().gen_range(0..config.max_random_delay);
-            next_time + Duration::seconds(random_delay as i64)
+            i64::try_from(random_delay)
+                .ok()
+                .and_then(|delay| span(delay, 1))
+                .and_then(|delay| next_time.checked_add_signed(delay))
+                .unwrap_or(next_time)
         } else {
             next_time
         };
@@ -252,21 +266,32 @@ impl TimeTrigger {
         interval: TimeTriggerInterval,
         modulate: bool,
     ) -> DateTime<Local> {
+        // An interval so long that the end of it cannot be represented never elapses.
+        TimeTrigger::checked_next_time(current, interval, modulate).unwrap_or_else(|| {
+            (DateTime::<chrono::Utc>::MAX_UTC - Duration::days(2)).with_timezone(&Local)
+        })
+    }
+
+    fn checked_next_time(
+        current: DateTime<Local>,
+        interval: TimeTriggerInterval,
+        modulate: bool,
+    ) -> Option<DateTime<Local>> {
         let year = current.year();
         if let TimeTriggerInterval::Year(n) = interval {
-            let n = n as i32;
+            let n = i32::try_from(n).ok().filter(|n| *n > 0)?;
             let increment = if modulate { n - year % n } else { n };
-            let year_new = year + increment;
+            let year_new = year.checked_add(increment)?;
             return local_time(&current, year_new, 1, 1, 0, 0, 0);
         }
 
         if let TimeTriggerInterval::Month(n) = interval {
             let month0 = current.month0();
-            let n = n as u32;
+            let n = u32::try_from(n).ok().filter(|n| *n > 0)?;
             let increment = if modulate { n - month0 % n } else { n };
             let num_months = (year as u32) * 12 + month0;
-            let num_months_new = num_months + increment;
-            let year_new = (num_months_new / 12) as i32;
+            let num_months_new = num_months.checked_add(increment)?;
+            let year_new = i32::try_from(num_months_new / 12).ok()?;
             let month_new = (num_months_new) % 12 + 1;
             return local_time(&current, year_new, month_new, 1, 0, 0, 0);
         }
@@ -274,39 +299,46 @@ impl TimeTrigger {
         let month = current.month();
         let day = current.day();
         if let TimeTriggerInterval::Week(n) = interval {
+            let n = Some(n).filter(|n| *n > 0)?;
             let week0 = current.iso_week().week0() as i64;
             let weekday = current.weekday().num_days_from_monday() as i64; // Monday is the first day of the week
             let time = truncated_time(&current, year, month, day, 0, 0, 0);
             let increment = if modulate { n - week0 % n } else { n };
-            return time + Duration::weeks(increment) - Duration::days(weekday);
+            return time
+                .checked_add_signed(span(increment, 7 * 24 * 60 * 60)?)?
+                .checked_sub_signed(Duration::days(weekday));
         }
 
         if let TimeTriggerInterval::Day(n) = interval {
+            let n = Some(n).filter(|n| *n > 0)?;
             let ordinal0 = current.ordinal0() as i64;
             let time = truncated_time(&current, year, month, day, 0, 0, 0);
             let increment = if modulate { n - ordinal0 % n } else { n };
-            return time + Duration::days(increment);
+            return time.checked_add_signed(span(increment, 24 * 60 * 60)?);
         }
 
         let hour = current.hour();
         if let TimeTriggerInterval::Hour(n) = interval {
+            let n = Some(n).filter(|n| *n > 0)?;
             let time = truncated_time(&current, year, month, day, hour, 0, 0);
             let increment = if modulate { n - (hour as i64) % n } else { n };
-            return time + Duration::hours(increment);
+            return time.checked_add_signed(span(increment, 60 * 60)?);
         }
 
         let min = current.minute();
         if let TimeTriggerInterval::Minute(n) = interval {
+            let n = Some(n).filter(|n| *n > 0)?;
             let time = truncated_time(&current, year, month, day, hour, min, 0);
             let increment = if modulate { n - (min as i64) % n } else { n };
-            return time + Duration::minutes(increment);
+            return time.checked_add_signed(span(increment, 60)?);
         }
 
         let sec = current.second();
         if let TimeTriggerInterval::Second(n) = interval {
+            let n = Some(n).filter(|n| *n > 0)?;
             let time = truncated_time(&current, year, month, day, hour, min, sec);
             let increment = if modulate { n - (sec as i64) % n } else { n };
-            return time + Duration::seconds(increment);
+            return time.checked_add_signed(span(increment, 1)?);
         }
         panic!("Should not reach here!");
     }
